@@ -30,7 +30,9 @@ class SrvFamily(Family):
             for need in (0, 8):
                 pre, *_ = vu.negotiation(rng, 2)
                 body = vu.config(0, 0xff4, 0, bytes(range(256)) * 15 + bytes(244))
-                out.append("srv " + " | ".join(pre + [vu.step(code, 1 | need, body, 0, vu.hout(rng, code, 0.0)),
+                # GET_CONFIG: the handler returns exactly the 4084 bytes asked for (the largest reply there is)
+                h = "h=ok,v=0,b=" + "5a" * 0xff4 if code == vu.GET_CONFIG else vu.hout(rng, code, 0.0)
+                out.append("srv " + " | ".join(pre + [vu.step(code, 1 | need, body, 0, h),
                                                       vu.step(vu.GET_FEATURES, 1, "", 0, "h=ok,v=1")]))
         while len(out) < n:
             pre, *_ = vu.negotiation(rng, rng.choice([0, 1, 2, 2, 2, 3, 4, 5]))
